@@ -108,6 +108,10 @@ def _run_search(ctx, args, timeout):
     rc, so, se = vlib.run([binp, 'mode=search'] + args, cwd=cwd, env=env, timeout=timeout)
     shutil.rmtree(cwd, ignore_errors=True)
     if rc != 0:
+        # violations are flushed when found: a searcher that ran out of time (or died) after finding
+        # one has still found it
+        if 'VIOL ' in so:
+            return so, None
         return None, 'searcher exited %d: %s' % (rc, (se or so)[-1200:])
     return so, None
 
